@@ -21,7 +21,7 @@ META = {
     'note': 'Trusted: Lean kernel (axioms propext/Quot.sound/Classical.choice at most); archive/tar and go-containerregistry deliver the entries the generator wrote; '
             'path.Clean / path.Join modelled on segment lists (exercised by ./, //, /./, x/../ and absolute spellings); file content is compared through a modelled '
             'extraction directory (not part of the theorems, which speak about content ids); symlink resolution is C17; tar header parsing, gzip, mod-times not covered. '
-            'Entries rejected for size or for a link target outside the root are treated as absent from the tar by model and specification alike.',
+            'An entry rejected for its size or for a link target outside the root is dropped by the loader model; the specification reads it as a whiteout of its path (Spec/OverlayRejected.lean).',
 }
 THEOREMS = ['Scalibr.Overlay.C04_view_partial', 'Scalibr.Overlay.C04_loader_views', 'Scalibr.Overlay.C04_loader_partial',
             'Scalibr.Overlay.C04_image_partial', 'Scalibr.Overlay.loadImage_chains',
@@ -31,6 +31,7 @@ THEOREMS = ['Scalibr.Overlay.C04_view_partial', 'Scalibr.Overlay.C04_loader_view
             'Scalibr.Overlay.C04_view_fails_recreate', 'Scalibr.Overlay.C04_view_fails_opaque', 'Scalibr.Overlay.C04_view_fails_dropped_entry',
             'Scalibr.Overlay.C04_view_fails_wh_recreate', 'Scalibr.Overlay.C04_view_fails_implicit_dir',
             'Scalibr.Overlay.C04_view_fails_duplicate', 'Scalibr.Overlay.C04_duplicate_first_wins_witness',
+            'Scalibr.Overlay.C04_view_fails_rejected', 'Scalibr.Overlay.C04_view_rejected_partial',
             'Scalibr.Overlay.C04_witness_classes', 'Scalibr.Overlay.view_gen', 'Scalibr.Overlay.revLayer_apply', 'Scalibr.Overlay.loadCore_eq_viewOf',
             'Scalibr.Overlay.C10_layer_bytes', 'Scalibr.Overlay.C10_layer_bytes_loader', 'Scalibr.Overlay.C10_layer_bytes_final',
             'Scalibr.Overlay.C10_layer_bytes_boundary', 'Scalibr.Overlay.C10_disk_bytes', 'Scalibr.Overlay.C10_disk_bytes_load',
@@ -404,7 +405,7 @@ def run(ctx):
                    'path.Clean/Join/Dir/Base as modelled in Model/GoPath.lean (validated by the stream on ./, //, /./, x/../, absolute, .., empty names)',
                    'harness/cmd/c04gen + overlay shim VerifNodeC04 (node lookup before symlink resolution) + lean/Drivers/C04.lean line protocol',
                    'Lean compiler for the driver executable']
-    ctx.assumptions = ['entries rejected by the loader (size >= MaxFileBytes, link target outside the root, unsupported type) are treated as absent from the tar by model and spec',
+    ctx.assumptions = ['entries of an unsupported type are treated as absent from the tar by model and spec; an entry rejected for its size (>= MaxFileBytes) or as a link out of the root is dropped by the loader model and read as a whiteout of its path by the specification (finding C04/rejected-entry-shows-older-file where that differs)',
                        'file content is compared through a modelled extraction directory; the theorems speak about content ids carried by the nodes',
                        'symlink chains in the final view are shorter than MaxSymlinkDepth (the required-target marking depends on map iteration order beyond that)',
                        'with a requirer, the content of non-required files in non-final views is unspecified (DESIGN §5 C04 (6))',
